@@ -45,6 +45,7 @@ var (
 	opDataA17     = MOp{K: "data", PID: 0x100, Len: 170 + 16*184}
 	opDataARAI    = MOp{K: "data", PID: 0x100, Len: 50, AF: "raipcr"}
 	opDataAprv    = MOp{K: "data", PID: 0x100, Len: 400, AF: "priv10"}
+	opDataAopc    = MOp{K: "data", PID: 0x100, Len: 200, AF: "opcr"}
 	opDataAnor    = MOp{K: "data", PID: 0x100, Len: 30, AF: "noroom"}
 	opDataAnorPCR = MOp{K: "data", PID: 0x100, Len: 30, AF: "noroompcr"}
 	opDataAnorRAI = MOp{K: "data", PID: 0x100, Len: 30, AF: "noroomrai"}
@@ -75,7 +76,7 @@ var (
 
 var muxFullAlpha = []MOp{
 	opAddA, opAddB, opAddAuto, opRmA, opRmB, opRmX, opPcrA, opPcrB, opPcrX, opTables,
-	opDataA1, opDataAfit, opDataAs1, opDataAs2, opDataA3, opDataA17, opDataARAI, opDataAprv, opDataAnor, opDataAhdr,
+	opDataA1, opDataAfit, opDataAs1, opDataAs2, opDataA3, opDataA17, opDataARAI, opDataAprv, opDataAopc, opDataAnor, opDataAhdr,
 	opDataB1, opDataBRAI, opDataAuto, opDataX,
 	opPktNull, opPktOwn, opPktAF, opPktShort, opPktBig, opPktStale, opPktWrap, opPktPriv0, opPktAF252, opDataApr0, opAddMany, opRmMany,
 }
